@@ -1,4 +1,5 @@
-from harness import jsonify
+import numpy as np
+
 from harness.envs.base import EnvAdapter
 
 
@@ -11,10 +12,53 @@ class Adapter(EnvAdapter):
         if tier == "quick":
             return [dict(id="n4", ctor=dict(board_size=4), episodes=6, max_steps=120),
                     dict(id="n2", ctor=dict(board_size=2), episodes=8, max_steps=40),
-                    dict(id="n3", ctor=dict(board_size=3), episodes=6, max_steps=80)]
-        return [dict(id=f"n{n}", ctor=dict(board_size=n), episodes=40, max_steps=400) for n in (2, 3, 4, 5, 6)]
+                    dict(id="n3", ctor=dict(board_size=3), episodes=6, max_steps=80),
+                    # INJ: every reachable board of the 2x2 TLC model (exponents <= 6) as a start state, all 4 actions
+                    dict(id="inj2", ctor=dict(board_size=2), inject=("MC_Game2048", "MC_Game2048_quick.cfg"), max_steps=1,
+                         post_terminal=0, policies=["random"], props=["C03", "C04", "C05", "C07", "C09", "C12"])]
+        return ([dict(id=f"n{n}", ctor=dict(board_size=n), episodes=40, max_steps=400) for n in (2, 3, 4, 5, 6)]
+                + [dict(id="inj2", ctor=dict(board_size=2), inject=("MC_Game2048", "MC_Game2048_quick.cfg"), max_steps=2,
+                        post_terminal=0, policies=["random"], props=["C03", "C04", "C05", "C07", "C09", "C12"]),
+                   dict(id="inj3", ctor=dict(board_size=3), inject=("MC_Game2048", "MC_Game2048_thorough.cfg"), limit=20000,
+                        max_steps=1, post_terminal=0, policies=["random"], props=["C03", "C04", "C05", "C07", "C09", "C12"])])
+
+    def cfg_record(self, cfg, env):
+        return {"board_size": cfg["ctor"]["board_size"], "injected": "inject" in cfg}
 
     def make(self, cfg):
         from jumanji.environments import Game2048
 
-        return Game2048(**cfg["ctor"])
+        if "inject" not in cfg:
+            return Game2048(**cfg["ctor"])
+        import jax.numpy as jnp
+
+        from harness import inject
+        from jumanji.environments.logic.game_2048.types import Observation, State
+        from jumanji.types import restart
+
+        states, _ = inject.dump_states(cfg["inject"][0], cfg["inject"][1], limit=None)
+        boards = sorted({tuple(tuple(r) for r in s["board"]) for s in states})
+        if cfg.get("limit"):
+            boards = boards[:: max(1, len(boards) // cfg["limit"])]
+        table = jnp.asarray(np.array(boards, dtype=np.int32))
+        cfg["episodes"] = len(boards)
+
+        class Injected(Game2048):
+            """Table-driven reset: start state number key[1] of the TLC dump; step and the mask code are the real ones."""
+
+            def reset(self, key):
+                board = table[key[1] % table.shape[0]]
+                action_mask = self._get_action_mask(board)
+                obs = Observation(board=board, action_mask=action_mask)
+                state = State(board=board, step_count=jnp.array(0, jnp.int32), action_mask=action_mask, key=key,
+                              score=jnp.array(0, float))
+                return state, restart(observation=obs, extras={"highest_tile": 2 ** jnp.max(board)})
+
+        return Injected(**cfg["ctor"])
+
+    def episode_key(self, cfg, ep, seed):
+        if "inject" not in cfg:
+            return None
+        import jax.numpy as jnp
+
+        return jnp.asarray([0, ep], dtype=jnp.uint32)
